@@ -43,7 +43,7 @@ def run(rep, work, rng, tier):
     for cid, lines, ks in index_matrix(rng, tier):
         cases.append((cid, lines))
         for k in ks: kinds[k.split('@')[0]] = kinds.get(k.split('@')[0], 0) + 1
-    n = 150 if tier == 'quick' else 4000
+    n = 150 if tier == 'quick' else 16000
     for i in range(n):
         b = conforming_history(rng, max_frames=rng.choice([4, 8, 12]))
         cases.append(('h%d' % i, b.lines))
